@@ -149,7 +149,7 @@ class LoopSpec:
         n = seq.length
         L0 = LoopCtx(interp, fr, key, seq, 0, pre)
         run.oblige(self._nm(interp, key, 'inv-init'), self.invariant(L0), kind='inv-init', meta=self._meta(interp))
-        which = run.decide(2)
+        which = run.decide(2) if concrete(n) != 0 else 1      # an empty sequence has no iteration to verify
         if which == 0:
             k = fresh_int('iter')
             run.assume(z3.And(k >= 0, k < to_z3(n)))
